@@ -289,6 +289,52 @@ def gen_text(p):
     return "\n".join(L) + "\n"
 
 
+# The values the hand model C07/Model.v is written for (= what the translator reads in a tree where the
+# three fix: commits of fixes/C07 are present).  Used ONLY when the translation fails: Gen.v is then reset to
+# these values, so that it never keeps the parameters of some other tree checked earlier; the failed
+# translation itself is reported by the caller as a broken tie.
+_ALL3 = {"tuple", "list", "ndarray"}
+REFERENCE = {
+    "extract_forms": _ALL3, "remove_forms": _ALL3, "reorder_forms": _ALL3, "cfbn_names_forms": _ALL3,
+    "cfbn_vals_forms": {"list", "ndarray"}, "add_defaults_forms": {"list"}, "split_forms": {"str"},
+    "copy_size_guard": "CNe", "extract_empty_guard": "CEq", "remove_empty_guard": "CEq", "cfbn_len_guard": "CNe",
+    "add_defaults_guard": "CNe", "combine_none_guard": "CEq", "combine_one_guard": "CEq", "combine_size_guard": "CNe",
+    "extract_keep_if_in": True, "remove_keep_if_in": False,
+    "extract_alloc": "AZeros", "remove_alloc": "AZeros", "add_alloc": "AZeros", "reorder_alloc": "AZeros",
+    "combine_alloc": "AZeros",
+    "extract_dims": "UseShape", "remove_dims": "UseShape", "add_dims": "UseShape", "reorder_dims": "UseShape",
+    "combine_dims": "UseShape",
+    "extract_strict_default": True, "reorder_strict_default": True, "compare_ignore_missing_default": True,
+    "split_getnames_default": False,
+    "raises_combine_fields": ["ValueError"] * 2, "raises_copy_fields": ["ValueError"],
+    "raises_extract_fields": ["ValueError"] * 2, "raises_remove_fields": ["ValueError"],
+    "raises_add_fields": ["ValueError"] * 2, "raises_reorder_fields": ["ValueError"],
+    "raises_copy_fields_by_name": ["ValueError"], "raises_split_fields": ["ValueError"] * 2,
+    "raises_compare_arrays": [],
+}
+
+
+def _write(coqdir, txt):
+    dst = os.path.join(coqdir, "theories", "C07", "Gen.v")
+    old = open(dst).read() if os.path.exists(dst) else None
+    if old == txt:
+        return False
+    tmp = dst + ".tmp.%d" % os.getpid()
+    with open(tmp, "w") as f:
+        f.write(txt)
+    os.replace(tmp, dst)
+    return True
+
+
+def write_reference(coqdir):
+    return _write(coqdir, gen_text(REFERENCE))
+
+
+def differences(p):
+    """names of the parameters whose value differs from what the model is written for"""
+    return sorted(k for k in REFERENCE if p.get(k) != REFERENCE[k])
+
+
 def regenerate(impl_dir, coqdir):
     """-> (parameters, changed: bool); raises TranslateError"""
     path = os.path.join(impl_dir, "esutil", "numpy_util.py")
@@ -300,16 +346,7 @@ def regenerate(impl_dir, coqdir):
         p = extract(src)
     except SyntaxError as e:
         raise TranslateError("numpy_util.py does not parse: %s" % e)
-    txt = gen_text(p)
-    dst = os.path.join(coqdir, "theories", "C07", "Gen.v")
-    old = open(dst).read() if os.path.exists(dst) else None
-    if old == txt:
-        return p, False
-    tmp = dst + ".tmp.%d" % os.getpid()
-    with open(tmp, "w") as f:
-        f.write(txt)
-    os.replace(tmp, dst)
-    return p, True
+    return p, _write(coqdir, gen_text(p))
 
 
 if __name__ == "__main__":
